@@ -13,6 +13,12 @@ def opsSolve (op : String) : Option (Rd String) :=
   | "solve.cubic" => some do
       let c0 : K ← num; let c1 : K ← num; let c2 : K ← num; let c3 : K ← num
       return eList (solveCubic c0 c1 c2 c3)
+  | "solve.quartic" => some do
+      -- only the reductions at the head of solve_quartic are modelled; the general case answers GENERAL
+      let c0 : K ← num; let c1 : K ← num; let c2 : K ← num; let c3 : K ← num; let c4 : K ← num
+      if (c4 ==. (0 : K)) || (c0 ==. (0 : K)) || ((c3 / c4 ==. (0 : K)) && (c1 / c4 ==. (0 : K))) then
+        return eList (solveQuarticWith (fun _ _ _ _ _ => []) c0 c1 c2 c3 c4)
+      else return "GENERAL"
   | "solve.itp" => some do
       -- f = cubic polynomial in Horner form
       let c0 : K ← num; let c1 : K ← num; let c2 : K ← num; let c3 : K ← num
